@@ -199,8 +199,11 @@ Proof.
   cbn [aexec ac_pd as_next as_st]. rewrite HF. apply IH.
 Qed.
 
-Definition tree_body : astmt :=
+(* `cls.first_slot = 0;` and `cls.vtbl.resize(next_slot);` write different members: both orders are accepted *)
+Definition tree_body_a : astmt :=
   ASeq ANextFromBase (ASeq (AForUsedBy (ASeq AStoreNext AIncNext)) (ASeq AFirstSlotZero (ASeq AVtblResizeNext (AForDerived ARecurseTree)))).
+Definition tree_body_b : astmt :=
+  ASeq ANextFromBase (ASeq (AForUsedBy (ASeq AStoreNext AIncNext)) (ASeq AVtblResizeNext (ASeq AFirstSlotZero (AForDerived ARecurseTree)))).
 
 (* one level of the recursion, the calls one level down being given *)
 Definition tree_level (L : lattice) (ms : list cmeth) (F : nat -> nat -> sstate -> sstate) (st : sstate) (c base : nat) : sstate :=
@@ -210,25 +213,33 @@ Definition tree_level (L : lattice) (ms : list cmeth) (F : nat -> nat -> sstate 
   let st2 := mk_ss (s_slots st1) (s_used st1) (s_resv st1) (s_mark st1) (set_nth c (s_first st1) 0) (set_nth c (s_vlen st1) next) (s_fuel_ok st1) in
   fold_left (fun s d => F d next s) (nth c (l_derived L) []) st2.
 
-Lemma tree_level_src L ms rt (F : nat -> nat -> sstate -> sstate) c base st :
+Lemma tree_level_src L ms rt (F : nat -> nat -> sstate -> sstate) body c base st :
+  body = tree_body_a \/ body = tree_body_b ->
   (forall d nx s, rt d nx s = Some (F d nx s)) ->
-  exists nx', aexec L ms LSkip rt no_lat tree_body (mk_acx (Some c) (Some base) None None) (mk_ast st None)
+  exists nx', aexec L ms LSkip rt no_lat body (mk_acx (Some c) (Some base) None None) (mk_ast st None)
               = Some (mk_ast (tree_level L ms F st c base) nx', false).
 Proof.
-  intro HF. unfold tree_body, tree_level.
+  intros Hb HF. unfold tree_level.
   set (x := mk_acx (Some c) (Some base) None None).
-  rewrite aexec_seq, (aexec_next_from_base _ _ _ _ _ x _ base eq_refl). cbn [as_st].
-  rewrite aexec_seq, (aexec_for_used _ _ _ _ _ _ x _ c eq_refl), tree_used_loop.
   assert (Efold : fold_left tree_step (used_by_vp ms c) (st, base)
                   = fold_left (fun '(s, nx) mp => (mk_ss (set_slot s mp nx) (s_used s) (s_resv s) (s_mark s) (s_first s) (s_vlen s) (s_fuel_ok s), S nx))
                               (used_by_vp ms c) (st, base)).
   { generalize (st, base). induction (used_by_vp ms c) as [|mp r IHr]; intro p; cbn [fold_left]; [reflexivity|]. rewrite IHr. now destruct p. }
-  rewrite <- Efold. destruct (fold_left tree_step (used_by_vp ms c) (st, base)) as [st1 next]. cbn [fst snd].
-  rewrite aexec_seq, (aexec_first_zero _ _ _ _ _ x _ c eq_refl). cbn [as_st as_next].
-  rewrite aexec_seq, (aexec_vtbl_next _ _ _ _ _ x (mk_ast (upd_first st1 c 0) (Some next)) c next eq_refl eq_refl). cbn [as_st as_next].
-  rewrite (aexec_for_derived _ _ _ _ _ _ x _ c eq_refl).
-  rewrite (tree_derived_loop L ms LSkip rt no_lat x next F) by (intros d s0; apply HF).
-  eexists. reflexivity.
+  rewrite <- Efold.
+  destruct Hb as [-> | ->]; [unfold tree_body_a | unfold tree_body_b];
+    rewrite aexec_seq, (aexec_next_from_base _ _ _ _ _ x _ base eq_refl); cbn [as_st];
+    rewrite aexec_seq, (aexec_for_used _ _ _ _ _ _ x _ c eq_refl), tree_used_loop;
+    destruct (fold_left tree_step (used_by_vp ms c) (st, base)) as [st1 next]; cbn [fst snd].
+  - rewrite aexec_seq, (aexec_first_zero _ _ _ _ _ x _ c eq_refl). cbn [as_st as_next].
+    rewrite aexec_seq, (aexec_vtbl_next _ _ _ _ _ x (mk_ast (upd_first st1 c 0) (Some next)) c next eq_refl eq_refl). cbn [as_st as_next].
+    rewrite (aexec_for_derived _ _ _ _ _ _ x _ c eq_refl).
+    rewrite (tree_derived_loop L ms LSkip rt no_lat x next F) by (intros d s0; apply HF).
+    eexists. reflexivity.
+  - rewrite aexec_seq, (aexec_vtbl_next _ _ _ _ _ x (mk_ast st1 (Some next)) c next eq_refl eq_refl). cbn [as_st as_next].
+    rewrite aexec_seq, (aexec_first_zero _ _ _ _ _ x _ c eq_refl). cbn [as_st as_next].
+    rewrite (aexec_for_derived _ _ _ _ _ _ x _ c eq_refl).
+    rewrite (tree_derived_loop L ms LSkip rt no_lat x next F) by (intros d s0; apply HF).
+    eexists. reflexivity.
 Qed.
 
 Lemma tree_fun_S f L ms body c base st :
@@ -239,15 +250,21 @@ Lemma tree_fun_S f L ms body c base st :
     end.
 Proof. reflexivity. Qed.
 
+Theorem tree_generic L ms body : body = tree_body_a \/ body = tree_body_b ->
+  forall fuel c base st, tree_fun fuel L ms body c base st = Some (assign_tree fuel L ms st c base).
+Proof.
+  intro Hb. induction fuel as [|f IH]; intros c base st; [reflexivity|].
+  rewrite tree_fun_S.
+  destruct (tree_level_src L ms (tree_fun f L ms body) (fun d nx s => assign_tree f L ms s d nx) body c base st Hb) as [nx' E];
+    [intros d nx s; apply IH|].
+  rewrite E. reflexivity.
+Qed.
+
 Theorem src_assign_tree L ms : forall fuel c base st,
   tree_fun fuel L ms gen_tree_slots c base st = Some (assign_tree fuel L ms st c base).
 Proof.
-  change gen_tree_slots with tree_body.
-  induction fuel as [|f IH]; intros c base st; [reflexivity|].
-  rewrite tree_fun_S.
-  destruct (tree_level_src L ms (tree_fun f L ms tree_body) (fun d nx s => assign_tree f L ms s d nx) c base st) as [nx' E];
-    [intros d nx s; apply IH|].
-  rewrite E. reflexivity.
+  first [ change gen_tree_slots with tree_body_a; apply tree_generic; now left
+        | change gen_tree_slots with tree_body_b; apply tree_generic; now right ].
 Qed.
 
 (* ------------------------------------------------------------------ assign_lattice_slots *)
